@@ -243,6 +243,8 @@ fn injected_calloop(what: &str) -> calloop::Error {
 pub enum Child {
     Plain(Generic<FdX>),
     Tr(TransientSource<Generic<FdX>>),
+    /// the sub-source was unwrapped (its fd handed back to the user)
+    Taken,
 }
 
 pub enum Inner {
@@ -325,6 +327,7 @@ impl<const L: bool> Zoo<L> {
                     match c {
                         Child::Plain(g) => g.register(poll, f)?,
                         Child::Tr(t) => t.register(poll, f)?,
+                        Child::Taken => {}
                     }
                 }
                 Ok(())
@@ -349,6 +352,7 @@ impl<const L: bool> Zoo<L> {
                     match c {
                         Child::Plain(g) => g.reregister(poll, f)?,
                         Child::Tr(t) => t.reregister(poll, f)?,
+                        Child::Taken => {}
                     }
                 }
                 Ok(())
@@ -373,6 +377,7 @@ impl<const L: bool> Zoo<L> {
                     match c {
                         Child::Plain(g) => g.unregister(poll)?,
                         Child::Tr(t) => t.unregister(poll)?,
+                        Child::Taken => {}
                     }
                 }
                 Ok(())
@@ -524,6 +529,7 @@ impl<const L: bool> EventSource for Zoo<L> {
                         let r = match c {
                             Child::Plain(g) => g.process_events(readiness, token, &mut cbk).map(|_| PostAction::Continue),
                             Child::Tr(t) => t.process_events(readiness, token, &mut cbk),
+                            Child::Taken => Ok(PostAction::Continue),
                         };
                         match r {
                             Ok(a) => action |= a,
